@@ -59,6 +59,35 @@ func (r *run) monitor(events []string, st *scheduler.VerifState, dump string) {
 			taskLine[f[1]] = kv
 		}
 	}
+	newRet := map[string]int64{}
+	defer func() {
+		// state as of the end of this segment, used by the checks of the next one
+		for wk, t := range newRet {
+			r.syncRet[wk] = t
+		}
+		r.syncActive = map[string]bool{}
+		for wk, cl := range r.w.syncs {
+			if !cl.done {
+				r.syncActive[wk] = true
+			}
+		}
+	}()
+	prevTask := map[string]map[string]string{}
+	for _, item := range strings.Split(r.last, "|") {
+		f := strings.Fields(item)
+		if len(f) < 2 || f[0] != "t" {
+			continue
+		}
+		kv := map[string]string{}
+		for _, x := range f[2:] {
+			if p := strings.SplitN(x, "=", 2); len(p) == 2 {
+				kv[p[0]] = p[1]
+			}
+		}
+		for _, o := range strings.Split(kv["ops"], ",") {
+			prevTask[o] = kv
+		}
+	}
 	for _, ev := range events {
 		f := strings.Fields(ev)
 		kv := map[string]string{}
@@ -87,6 +116,18 @@ func (r *run) monitor(events []string, st *scheduler.VerifState, dump string) {
 				r.failf("violation", "C02", "C02.stage_monotone", "client %d saw stage %d after stage %d", c, stage, m.lastStage)
 			}
 			m.lastStage = stage
+			if kv["done"] == "1" && kv["code"] == "14" && kv["tok"] == "0" {
+				// UNAVAILABLE made by the scheduler: if the task was executing on a worker, that
+				// worker must really have stopped synchronizing for the worker timeout
+				if tl := prevTask[strconv.Itoa(op)]; tl != nil && tl["st"] == "3" && tl["w"] != "-" {
+					wk := tl["q"] + "/" + tl["w"]
+					if r.syncActive[wk] {
+						r.failf("violation", "C06", "C06.worker_timeout", "task of operation %d failed with UNAVAILABLE although its worker %s was inside a Synchronize call when the segment began", op, wk)
+					} else if last, ok := r.syncRet[wk]; ok && r.w.clk.now < last+r.w.cfg.workerTimeout {
+						r.failf("violation", "C06", "C06.worker_timeout", "task of operation %d failed with UNAVAILABLE at %d although its worker %s last synchronized at %d (worker timeout %d)", op, r.w.clk.now, wk, last, r.w.cfg.workerTimeout)
+					}
+				}
+			}
 			if kv["done"] == "1" {
 				m.done = true
 				r.flags["done"] = true
@@ -122,6 +163,8 @@ func (r *run) monitor(events []string, st *scheduler.VerifState, dump string) {
 				r.failf("violation", "C02", "C02.eventually_done", "client %d: stream of operation %d ended with code %s although the client did not cancel", c, m.op, kv["code"])
 			}
 		case "sync":
+			// the worker's Synchronize call returned now (recorded after this segment's checks)
+			newRet[kv["w"]] = r.w.clk.now
 			if len(f) > 2 && f[2] == "exec" {
 				wk := kv["w"]
 				t := taskOfWorker[wk]
